@@ -29,11 +29,16 @@ def fr(x):
 
 # ------------------------------------------------------------------ scenario -> config text
 def colvar_block(i, v):
-    L = ["colvar {", "  name v%d" % i, "  width %r" % v["w"], "  lowerBoundary %r" % v.get("lo", -32), "  upperBoundary %r" % v.get("hi", 32)]
+    L = ["colvar {", "  name v%d" % i, "  width %r" % v["w"]]
+    if not v.get("vec"):      # boundaries are for scalar variables only
+        L += ["  lowerBoundary %r" % v.get("lo", -32), "  upperBoundary %r" % v.get("hi", 32)]
     if v["tsf"] != 1:
         L.append("  timeStepFactor %d" % v["tsf"])
     if v.get("extra"):
         L += ["  " + x for x in v["extra"]]
+    if v.get("vec"):
+        L += ["  distanceVec {", "    group1 { atomNumbers %s }" % " ".join(str(a + 1) for a in v["vec"]["g1"]),
+              "    group2 { atomNumbers %s }" % " ".join(str(a + 1) for a in v["vec"]["g2"]), "  }"]
     for c in v["comps"]:
         L += ["  distanceZ {"]
         if c["coeff"] != 1.0:
@@ -63,7 +68,9 @@ def bias_block(sc, j):
     L = [kw + " {", "  name b%d" % j, "  colvars " + " ".join("v%d" % i for i in b["vars"])]
     if b["tsf"] != 1:
         L.append("  timeStepFactor %d" % b["tsf"])
-    if b["kind"] in ("H", "L"):
+    if b.get("vcenter"):
+        L += ["  centers (%r, %r, %r)" % tuple(float(x) for x in b["vcenter"]), "  forceConstant %r" % b["k"]]
+    elif b["kind"] in ("H", "L"):
         L += ["  centers " + vecs(b["centers"]), "  forceConstant %r" % b["k"]]
     elif b["kind"] == "W":
         L += ["  upperWalls " + vecs(b["centers"]), "  forceConstant %r" % b["k"]]
@@ -979,6 +986,58 @@ def scaled_scenario(r, k):
             "events": ev, "A": [0], "B": list(range(1, nbs))}
 
 
+def vector_scenario(r, k):
+    """a non-scalar variable (distanceVec between a 1-atom and a 1-2 atom group) with two harmonic restraints with factors 1-3:
+    the non-scalar branch of colvar::communicate_forces"""
+    g2 = r.choice([[1], [1, 2]])
+    mass = [1.0, 1.0, 1.0]
+    if len(g2) == 2:
+        mass[1], mass[2] = r.choice(GROUPS2)
+    v = {"tsf": 1, "w": r.choice([0.5, 1.0, 2.0]), "comps": [], "vec": {"g1": [0], "g2": g2}}
+    biases = [{"kind": "H", "tsf": r.choice([1, 2, 3]), "vars": [0], "k": r.choice([0.5, 1.0, 2.0]),
+               "vcenter": [dy(r, -2, 2, 2) for _ in range(3)]} for _ in range(2)]
+    ev = [("S", [[dy(r, -3, 3, 2) for _ in range(3)] for _ in range(3)]) for _ in range(r.randint(6, 10))]
+    return {"id": k, "family": "vector", "natoms": 3, "mass": mass, "vars": [v], "biases": biases, "it0": r.choice([0, 0, 2, 5]),
+            "events": ev, "A": [0], "B": [1]}
+
+
+def oracle_vector(run, sc, tag, subset, isteps):
+    """O13: python recomputation for the vector variable: F_b = -k/w^2 (x - c) (x = COM2 - COM1), contributing at multiples of
+    its factor with factor * F_b; group2 atoms get +F m_i/M2, the group1 atom -F; energy = sum 1/2 k/w^2 |x - c|^2"""
+    v = sc["vars"][0]
+    w = fr(v["w"])
+    calcs = [ev for ev in sc["events"] if ev[0] == "S"]
+    g1, g2 = v["vec"]["g1"], v["vec"]["g2"]
+    M2 = sum(fr(sc["mass"][a]) for a in g2)
+    for s in range(min(first_error(isteps), len(calcs))):
+        it = isteps[s]["it"]
+        pos = calcs[s][1]
+        x = [sum(fr(sc["mass"][a]) * fr(pos[a][q]) for a in g2) / M2 - fr(pos[g1[0]][q]) for q in range(3)]
+        F = [Fr(0)] * 3
+        E = Fr(0)
+        for j in subset:
+            b = sc["biases"][j]
+            if it % b["tsf"] != 0:
+                continue
+            kk = fr(b["k"]) / (w * w)
+            d = [x[q] - fr(b["vcenter"][q]) for q in range(3)]
+            E += kk / 2 * sum(t * t for t in d)
+            for q in range(3):
+                F[q] += b["tsf"] * (-kk * d[q])
+        want = [[Fr(0)] * 3 for _ in range(sc["natoms"])]
+        for a in g2:
+            for q in range(3):
+                want[a][q] += F[q] * fr(sc["mass"][a]) / M2
+        for q in range(3):
+            want[g1[0]][q] -= F[q]
+        got = atomf(isteps[s], sc["natoms"])
+        if any(not close(got[a][q], float(want[a][q])) for a in range(sc["natoms"]) for q in range(3)) or not close(isteps[s]["E"], float(E)):
+            run.violation("pipeline:vector:atom-force", "scenario %d run %s step %d (it=%d): forces %s energy %r; factor * harmonic force on the 3-vector variable gives %s energy %r"
+                          % (sc["id"], tag, s, it, got, isteps[s]["E"], [[float(t) for t in u] for u in want], float(E)),
+                          replay_of_scripted(sc, s))
+            return
+
+
 def coupling_scenario(r, k):
     """lagged engine forces that include the Colvars forces, a one-atom distanceZ variable with subtractAppliedForce and
     outputTotalForce, two restraints: the total force reported at step t+1 must be the engine's own force of step t,
@@ -1054,7 +1113,7 @@ def run_batch(unit, model, scs, d):
         for t, sub in subsets.items():
             tag = "%d:%s" % (sc["id"], t)
             L += scenario_lines(sc, sub, tag)
-            if all(sc["biases"][j]["kind"] not in ("F", "FA") for j in sub) and sc["family"] not in ("ext", "scripted") and t != "P":
+            if all(sc["biases"][j]["kind"] not in ("F", "FA") for j in sub) and sc["family"] not in ("ext", "scripted", "vector") and t != "P":
                 M.append(model_case(sc, sub))
                 keys.append(tag)
     for sc in scs:
@@ -1113,6 +1172,9 @@ def check(run):
     for _ in range(16 if quick else 400):
         scs.append(scaled_scenario(r, k))
         k += 1
+    for _ in range(10 if quick else 300):
+        scs.append(vector_scenario(r, k))
+        k += 1
     for _ in range(12 if quick else 300):
         scs.append(ext_scenario(r, k))
         k += 1
@@ -1161,7 +1223,9 @@ def check(run):
                 if tag in mod:
                     msteps = parse_model_line(mod[tag], sc["natoms"])
                     compare_model(run, sc, t, sub, msteps, isteps)
-                if sc["family"] not in ("nonbiasing", "ext", "abfcoupling", "scripted"):
+                if sc["family"] == "vector":
+                    oracle_vector(run, sc, t, sub, isteps)
+                if sc["family"] not in ("nonbiasing", "ext", "abfcoupling", "scripted", "vector"):
                     oracle_spec(run, sc, t, sub, isteps)
                     w = oracle_impulse(run, sc, t, sub, isteps)
                     windows += w
